@@ -96,6 +96,9 @@ package datastore
 //@   internal alternatives_loaded_once_without_the_transactions_intents [C01 C02 C09]: called(loadIntendedStoreHighestPrio) ==>
 //@            callarg(loadIntendedStoreHighestPrio, 0, 3) == callres(NewPathSet, 0) && callarg(loadIntendedStoreHighestPrio, 0, 2) == callres(NewTreeRoot, 0, 0) &&
 //@            callarg(loadIntendedStoreHighestPrio, 0, 4) == callres(GetIntentNames, 0) && callarg(GetIntentNames, 0, 0) == transaction
+// all of running goes into the same tree: a leaf the device holds keeps its container from being deleted as a whole
+//@   internal running_is_loaded_in_full [C01 C09]: called(Validate) ==> called(populateTreeWithRunning) &&
+//@            callarg(populateTreeWithRunning, 0, 2) == callres(NewTreeRoot, 0, 0) && callarg(populateTreeWithRunning, 0, 1) == callarg(loadIntendedStoreHighestPrio, 0, 1)
 //@   loop 1 invariant ntrace() == n0 && inv_Transaction(transaction) && vrOK(validationResult)
 //@   loop 2 invariant ntrace() == n0 && inv_Transaction(transaction) && vrOK(validationResult)
 //@   loop 3 invariant inv_Transaction(transaction) && $map == transaction.newIntents && !dryRun && !anyErrors(validationResult)
@@ -121,6 +124,19 @@ package datastore
 //@            callarg(ReadCurrentUpdatesHighestPriorities, 0, 3) == len(skipIntents) + 1 && callarg(ReadCurrentUpdatesHighestPriorities, 0, 2) == callres(GetPaths, 0)
 //@   loop 0 invariant entries_of_other_intents_are_added: called(Contains) ==> callarg(Contains, 0, 0) == skipIntents && callarg(Contains, 0, 1) == callres(Owner, 0) &&
 //@            callarg(Owner, 0, 0) == $seq[$i] && (!callres(Contains, 0) ==> called(AddCacheUpdateRecursive) && callarg(AddCacheUpdateRecursive, 0, 2) == $seq[$i])
+
+// C01: the whole running configuration is read and every entry of it goes into the tree, as an entry of the running
+// owner with the running priority and the stored path and value
+//@ func populateTreeWithRunning
+//@   props C01 C09
+//@   requires r != nil && istype(tscc, *tree.TreeCacheClientImpl) ==> dyn(tscc, *tree.TreeCacheClientImpl) != nil
+//@   nosafety the claims are about what is read and added; no-panic is property C20
+//@   internal reads_all_of_running: called(ReadRunningFull)
+//@   loop 0 invariant every_running_entry_is_added: called(NewUpdate) ==> called(AddCacheUpdateRecursive) && callarg(AddCacheUpdateRecursive, 0, 2) == callres(NewUpdate, 0)
+//@   loop 0 invariant added_with_its_path: called(NewUpdate) ==> callarg(NewUpdate, 0, 0) == $seq[$i].path
+//@   loop 0 invariant added_with_its_value: called(NewUpdate) ==> callarg(NewUpdate, 0, 1) == $seq[$i].value
+//@   loop 0 invariant added_as_running: called(NewUpdate) ==> callarg(NewUpdate, 0, 2) == tree.RunningValuesPrio && callarg(NewUpdate, 0, 3) == tree.RunningIntentName
+//@   loop 0 invariant $seq == callres(ReadRunningFull, 0, 0)
 
 // ---------------------------------------------------------------------------
 // C03: the replace intent is validated, applied and mirrored; a validation failure is an error without effects
